@@ -144,6 +144,14 @@ func partO(r *vh.Run, base string) {
 		os.WriteFile(filepath.Join(base, "ref.json"), b, 0o644)
 	}
 	r.CountN("worker:operations-in-pool", len(pr.pool))
+	for _, o := range pr.pool[pr.cryptoStart:pr.sharedStart] {
+		// a pipeline whose run-alone result is an error exercises nothing: make that visible
+		if strings.Contains(rf.Ref[o.name], "err:") {
+			r.Count("crypto-reference-is-error:" + o.name)
+		} else {
+			r.Count("crypto-reference-ok")
+		}
+	}
 	outFile := filepath.Join(r.Dir, "worker.json")
 	raceLog := filepath.Join(r.Dir, "racelog")
 	cmd := exec.Command(bin, "--worker", "--seed", strconv.FormatInt(r.Seed, 10), "--tier", r.Tier, "--report", outFile,
@@ -367,6 +375,7 @@ func errText(err error) string {
 // prepared is the workload: the pool of operations over a fixed set-up on disk.
 type prepared struct {
 	pool        []wop
+	cryptoStart int // pool[cryptoStart:sharedStart] are the encryption pipelines (RC4-40, RC4-128, AES-128, AES-256)
 	sharedStart int // pool[sharedStart:] are the operations on the shared package-level state
 	notes       []string
 }
@@ -519,6 +528,86 @@ func prepare(tmp, repo string, thorough, create bool) prepared {
 			}
 			return normalise(w.Bytes())
 		})
+	}
+	// ---- encryption pipelines for every security handler revision: RC4-40 (R2), RC4-128 (R3), AES-128 (R4)
+	// derive a key per object (Algorithm 1, pdfcpu.decryptKey); AES-256 (R5/6) does not.  Each operation
+	// encrypts its own copy of its document and then decrypts / validates / optimizes / re-keys it.
+	pr.cryptoStart = len(pr.pool)
+	type cmode struct {
+		name string
+		conf func(upw, opw string) *model.Configuration
+	}
+	plain := func(c *model.Configuration) *model.Configuration {
+		c.WriteObjectStream = false
+		c.WriteXRefStream = false
+		return c
+	}
+	modes := []cmode{
+		{"rc4-40", func(u, o string) *model.Configuration { return plain(model.NewRC4Configuration(u, o, 40)) }},
+		{"rc4-128", func(u, o string) *model.Configuration { return plain(model.NewRC4Configuration(u, o, 128)) }},
+		{"aes-128", func(u, o string) *model.Configuration { return plain(model.NewAESConfiguration(u, o, 128)) }},
+		{"aes-256", func(u, o string) *model.Configuration { return plain(model.NewAESConfiguration(u, o, 256)) }},
+	}
+	ncrypt := 3
+	if thorough {
+		ncrypt = len(pdfs)
+	}
+	for i := 0; i < ncrypt && i < len(pdfs); i++ {
+		b := append([]byte{}, pdfs[i]...)
+		n := pdfNames[i]
+		for _, m := range modes {
+			m := m
+			upw, opw := "u-"+n+m.name, "o-"+n+m.name
+			enc := func() ([]byte, error) {
+				var w bytes.Buffer
+				err := api.Encrypt(bytes.NewReader(b), &w, m.conf(upw, opw))
+				return w.Bytes(), err
+			}
+			dec := func(e []byte, u string) string {
+				var d bytes.Buffer
+				if err := api.Decrypt(bytes.NewReader(e), &d, m.conf(u, opw)); err != nil {
+					return "decrypt-" + errText(err)
+				}
+				return normalise(d.Bytes())
+			}
+			add("crypt-decrypt", m.name+"/"+n, func() string {
+				e, err := enc()
+				if err != nil {
+					return "encrypt-" + errText(err)
+				}
+				return dec(e, upw)
+			})
+			add("crypt-validate", m.name+"/"+n, func() string {
+				e, err := enc()
+				if err != nil {
+					return "encrypt-" + errText(err)
+				}
+				c, err := api.PageCount(bytes.NewReader(e), m.conf(upw, opw))
+				return errText(api.Validate(bytes.NewReader(e), m.conf(upw, opw))) + fmt.Sprintf("/%d/%s", c, errText(err))
+			})
+			add("crypt-optimize", m.name+"/"+n, func() string {
+				e, err := enc()
+				if err != nil {
+					return "encrypt-" + errText(err)
+				}
+				var w bytes.Buffer
+				if err := api.Optimize(bytes.NewReader(e), &w, m.conf(upw, opw)); err != nil {
+					return "optimize-" + errText(err)
+				}
+				return dec(w.Bytes(), upw)
+			})
+			add("crypt-changeupw", m.name+"/"+n, func() string {
+				e, err := enc()
+				if err != nil {
+					return "encrypt-" + errText(err)
+				}
+				var w bytes.Buffer
+				if err := api.ChangeUserPassword(bytes.NewReader(e), &w, upw, upw+"-new", m.conf(upw, opw)); err != nil {
+					return "changeupw-" + errText(err)
+				}
+				return dec(w.Bytes(), upw+"-new")
+			})
+		}
 	}
 	pr.sharedStart = len(pr.pool)
 	for _, n := range []string{"f1", "f2", "f3", "f4", "f9", "Helvetica", "Roboto-Regular"} {
@@ -675,6 +764,51 @@ func workerMain(args []string) {
 		rep.Counts[fmt.Sprintf("stress:gomaxprocs=%d", p)]++
 	}
 	lap("stress phase")
+	// ---- crypto phase: 8 goroutines x GOMAXPROCS sweep, only encryption pipelines on independent documents
+	crypto := pool[pr.cryptoStart:pr.sharedStart]
+	citers := 3
+	if thorough {
+		citers = 30
+	}
+	for _, p := range procs {
+		if len(crypto) == 0 {
+			break
+		}
+		runtime.GOMAXPROCS(p)
+		g := 8
+		seeds := make([]int64, g)
+		for i := range seeds {
+			seeds[i] = rng.Int63()
+		}
+		var wg sync.WaitGroup
+		start := make(chan struct{})
+		for i := 0; i < g; i++ {
+			wg.Add(1)
+			go func(i int) {
+				defer wg.Done()
+				lr := rand.New(rand.NewSource(seeds[i]))
+				<-start
+				for k := 0; k < citers; k++ {
+					o := crypto[lr.Intn(len(crypto))]
+					got := o.run()
+					mu.Lock()
+					rep.Counts["op:"+o.kind]++
+					rep.Counts["crypto-mode:"+strings.SplitN(strings.SplitN(o.name, ":", 2)[1], "/", 2)[0]]++
+					if !unstable[o.name] {
+						rep.Checks++
+						if got != ref[o.name] && len(rep.Mismatches) < 200 {
+							rep.Mismatches = append(rep.Mismatches, mismatch{Op: o.name, Kind: o.kind, Want: ref[o.name], Got: got, Procs: p, G: g, Round: -2, Fresh: false})
+						}
+					}
+					mu.Unlock()
+				}
+			}(i)
+		}
+		close(start)
+		wg.Wait()
+		rep.Counts[fmt.Sprintf("crypto-phase:gomaxprocs=%d", p)]++
+	}
+	lap("crypto phase")
 	tc := time.Now()
 	for round := 0; round < rounds; round++ {
 		if round >= 4 && time.Since(tc) > budget {
